@@ -66,6 +66,16 @@ uri_unquote = z3.Function("uri_unquote", STR, STR)
 int_and = z3.Function("int_and", INT, INT, INT)
 
 
+def is_box_cls(cls):
+    """Mutable containers on the heap: list / dict objects and objects of their subclasses (field `v`
+    holds the current content)."""
+    return cls in (list, dict) or (isinstance(cls, type) and issubclass(cls, (list, dict)))
+
+
+def is_plain_box_cls(cls):
+    return cls in (list, dict)
+
+
 class PyIterator:
     """Marker class of modelled iterator objects: field `rest` = the items still to be produced.
 
@@ -95,21 +105,21 @@ def unbox(it, v):
     """Box (mutable container object) -> its current content term."""
     if isinstance(v, IterSpec) and v.term is not None:
         return v.term
-    if isinstance(v, SymObj) and v.cls in (list, dict):
+    if isinstance(v, SymObj) and is_box_cls(v.cls):
         return v.fields["v"]
     if S.is_term(v):
         o = it.deref(v)
-        if isinstance(o, SymObj) and o.cls in (list, dict):
+        if isinstance(o, SymObj) and is_box_cls(o.cls):
             return o.fields["v"]
     return v
 
 
 def box_of(it, v):
-    if isinstance(v, SymObj) and v.cls in (list, dict):
+    if isinstance(v, SymObj) and is_box_cls(v.cls):
         return v
     if S.is_term(v):
         o = it.deref(v)
-        if isinstance(o, SymObj) and o.cls in (list, dict):
+        if isinstance(o, SymObj) and is_box_cls(o.cls):
             return o
     return None
 
@@ -207,7 +217,7 @@ def isinstance_model(it, v, spec):
                 classes.append(o)
     else:
         raise Unsupported("isinstance spec")
-    if isinstance(v, SymObj) and v.cls not in (list, dict):
+    if isinstance(v, SymObj) and not is_plain_box_cls(v.cls):
         return any(issubclass(v.cls, c) for c in classes)
     if isinstance(v, ExcVal):
         return any(issubclass(v.cls, c) for c in classes)
@@ -215,7 +225,7 @@ def isinstance_model(it, v, spec):
         return False
     vt = T(it, v)
     o = it.deref(vt)
-    if isinstance(o, SymObj) and o.cls not in (list, dict):
+    if isinstance(o, SymObj) and not is_plain_box_cls(o.cls):
         return any(issubclass(o.cls, c) for c in classes)
     preds = []
     for c in classes:
@@ -251,7 +261,7 @@ def py_str(it, v):
         return exc_base_str(it, v)
     t = T(it, v)
     o = it.deref(t)
-    if isinstance(o, SymObj) and o.cls not in (list, dict):
+    if isinstance(o, SymObj) and not is_box_cls(o.cls):
         return py_str(it, o)
     return S.py_str(t)
 
@@ -561,13 +571,13 @@ def _iter(it, a, k):
         if s_ is None:
             raise Unsupported("iter() of this generator")
         return new_iterator(it, s_)
-    if isinstance(v, SymObj) and v.cls not in (list, dict):
+    if isinstance(v, SymObj) and not is_box_cls(v.cls):
         if "__iter__" in _mro_names(v.cls):
             return it.call_method(v, "__iter__", [])
         it.raise_(TypeError, "object is not iterable")
     t = T(it, v)
     o = it.deref(t)
-    if isinstance(o, SymObj) and o.cls not in (list, dict):
+    if isinstance(o, SymObj) and not is_box_cls(o.cls):
         return _iter(it, [o], k)
     if it.branch(z3.Or(Py.is_list(t), Py.is_tuple(t), Py.is_nodelist(t))):
         return new_iterator(it, S.seq_items(t))
@@ -1063,13 +1073,13 @@ def getitem(it, obj, key):
         kind, seq = _container_seq(obj)
         if kind is not None and split_last(seq) is not None:
             return split_last(seq)[1]
-    if isinstance(obj, SymObj) and obj.cls not in (list, dict):
+    if isinstance(obj, SymObj) and not is_box_cls(obj.cls):
         if "__getitem__" in _mro_names(obj.cls):
             return it.call_method(obj, "__getitem__", [key])
         it.raise_(TypeError, "object is not subscriptable")
     obj = T(it, obj)
     o = it.deref(obj)
-    if isinstance(o, SymObj) and o.cls not in (list, dict):
+    if isinstance(o, SymObj) and not is_box_cls(o.cls):
         return getitem(it, o, key)
     if isinstance(o, SliceVal) or isinstance(it.deref(it.to_term(key)) if S.is_term(key) else None, SliceVal):
         return slice_get(it, obj, it.deref(it.to_term(key)))
@@ -1317,7 +1327,7 @@ def _head(t):
 def identical(it, a, b):
     if isinstance(a, SymObj) or isinstance(b, SymObj):
         if isinstance(a, SymObj) and isinstance(b, SymObj):
-            return a is b
+            return a.ref == b.ref  # (not `a is b`: loop bodies run on clones of the heap objects)
         other = b if isinstance(a, SymObj) else a
         me = a if isinstance(a, SymObj) else b
         if S.is_term(other):
@@ -1337,11 +1347,11 @@ def equal(it, a, b):
     """z3 Bool / bool for Python a == b, honouring user-defined __eq__."""
     for x, y in ((a, b), (b, a)):
         o = x if isinstance(x, SymObj) else (it.deref(x) if S.is_term(x) else None)
-        if isinstance(o, SymObj) and o.cls not in (list, dict) and "__eq__" in _mro_names(o.cls):
+        if isinstance(o, SymObj) and not is_box_cls(o.cls) and "__eq__" in _mro_names(o.cls):
             r = it.call_method(o, "__eq__", [y])
             return it.truth(r)
-    if isinstance(a, SymObj) and isinstance(b, SymObj) and a.cls not in (list, dict):
-        return a is b
+    if isinstance(a, SymObj) and isinstance(b, SymObj) and not is_box_cls(a.cls):
+        return a.ref == b.ref
     ta, tb = T(it, a), T(it, b)
     ha, hb = _head(ta), _head(tb)
     if ha == "int" and hb == "int":
@@ -1753,6 +1763,11 @@ def instantiate(it, cls, args, kwargs):
         if len(args) == 1:
             a = [S.NONE, args[0], S.NONE]
         return SliceVal(*a[:3])
+    if issubclass(cls, (dict, list)) and cls.__module__.startswith(("jsonpath", "specs")) and not args and not kwargs:
+        owner, init = it.find_method(cls, "__init__")
+        if owner in (dict, list, object, None):
+            # a subclass of dict / list that adds no constructor: an empty container object of that class
+            return it.alloc(cls, {"v": Py.dict(S.EmptySeq, S.EmptySeq) if issubclass(cls, dict) else S.mk_list([])}, origin="FRESH")
     if cls.__module__.startswith(("jsonpath", "specs")):
         obj = it.alloc(cls)
         owner, init = it.find_method(cls, "__init__")
